@@ -195,15 +195,19 @@ def signature(f):
 
 CORPUS_EXPECT = {
     # witnesses of the open findings: must fail as recorded
-    "kindnames-name-shared-across-kinds": ("kindnames", "instance-redefined-or-name-shared-across-kinds"),
-    "kindnames-instance-renamed": ("kindnames", "instance-redefined-or-name-shared-across-kinds"),
+    "kindnames-instance-renamed": ("kindnames", "instance-redefined"),
+    "kindnames-destination-dropped": ("kindnames", "destination-dropped-by-update"),
+    "usage-instance-renamed-to-consul": ("kindnames", "instance-redefined"),
     "topology-upstream-dropped": ("topology", "upstream-dropped-or-instance-redefined-or-wildcard-gateway"),
-    "gateway-listed-service-overwritten-by-wildcard": ("gateway-services", "wildcard-gateway"),
-    "usage-instance-renamed-to-consul": ("usage", "instance-renamed-to-or-from-consul"),
-    # regression cases of the repaired findings (8e1bd1c, acb191c): any oracle failure on them has no excluded
-    # class and is therefore reported as a VIOLATION with the corpus history as its replay
+    "gateway-ingress-wildcard-order": ("gateway-services", "wildcard-order"),
+    # regression cases of the repaired findings (8e1bd1c, acb191c, 10e7cca, 0bb54ea, a882280, 948377c): any oracle
+    # failure of the repaired view on them has no excluded class and is therefore reported as a VIOLATION with
+    # the corpus history as its replay
     "vip-proxy-outlives-assignment": None,
     "topology-pair-declared-twice": None,
+    "kindnames-name-shared-across-kinds": None,
+    "gateway-listed-service-overwritten-by-wildcard": None,
+    "gateway-service-in-two-rows": None,
 }
 
 
@@ -391,7 +395,7 @@ def run(ctx):
         "history_classes": dict(flags),
         "history_length_histogram": {str(k): v for k, v in sorted(lens.items())},
         "samples": [{"mix": h["mix"], "cmds": h["cmds"][:4], "results": h["results"][:4]} for h in hs[6:8]],
-        "stage": "A proved (virtual IP uniqueness and advertised virtual IPs in full since /repo 8e1bd1c; usage and kind-service-names refuted + proved under the exact excluding hypotheses); B (gateway-services, mesh-topology) modelled, compared with the implementation on every run, refuted by witnesses; for mesh-topology the reference-keeping property repaired by /repo acb191c is proved for updateMeshTopology",
+        "stage": "A proved (virtual IP uniqueness, advertised virtual IPs and usage counts in full; kind-service-names refuted + proved under the naming discipline); B (gateway-services, mesh-topology) modelled, compared with the implementation on every run, refuted by witnesses; for mesh-topology the reference-keeping of updateMeshTopology is proved",
         "exhaustive": False,
     })
     return ctx.finish(cov, assumptions)
